@@ -339,7 +339,7 @@ func importWriteDiscipline(c *Ctx, rule, rel string) {
 // the value most recently set for that key on that owner (C12's R12.1/R12.2 on the property chain).
 func importPropertyStore(c *Ctx, rule string) {
 	importPremises(c, rule, "property-store premise ", "a stale or lost setting changes how the column is rendered", func(o *Ob) bool {
-		return o.Rule == "R12.1" || o.Rule == "R12.2" || o.Rule == "R12.5"
+		return o.Rule == "R12.1" || o.Rule == "R12.2" || o.Rule == "R12.3" || o.Rule == "R12.4" || o.Rule == "R12.5"
 	}, func() { runC12(c) })
 	// ... and on the column the setting was made on still being the table's column n when it is read back
 	importPremises(c, rule, "column-bookkeeping premise ", "a growth step that loses, shifts or re-creates a column loses the settings made on it", func(o *Ob) bool {
